@@ -2018,8 +2018,15 @@ class AllConnGraph(nx.DiGraph):
         if pinfo is None:
             src_indices = src_shape = None
         else:
-            src_indices = pinfo.src_indices
+            # every promoted input gets its own Indexer: one promotes() call may give the same
+            # src_indices to several inputs whose sources have different shapes
             src_shape = pinfo.src_shape
+            if pinfo.src_indices is None:
+                src_indices = None
+            else:
+                src_indices = pinfo.src_indices.copy()
+                if src_shape is not None:
+                    src_indices.set_src_shape(src_shape)
 
         self.check_add_edge(group, src, tgt, src_indices=src_indices)
 
